@@ -301,6 +301,19 @@ def rename_file_check(run, d):
                 os.unlink(junk)
 
 
+def mech_tags(fl, mangled):
+    """Mechanism tags of a failing file, for the known-finding matchers."""
+    tags = set()
+    if any(fl[i]["k"] == "text" and fl[i]["kw"] for i, _ in mangled):
+        tags.add("help-text-starting-with-keyword")
+    for i, kind in mangled:
+        if kind in ("tab", "tab+trail") and fl[i]["k"] not in ("text", "blank", "hash"):
+            prev = [x for x in fl[:i] if x["k"] not in ("blank", "hash")]
+            if prev and prev[-1]["k"] in ("text", "help"):
+                tags.add("tab-indented-line-after-help")
+    return tags
+
+
 def main(run):
     tier = run.tier
     rng = random.Random(run.seed)
@@ -331,7 +344,7 @@ def main(run):
         for lines, is_can, changed in variants:
             obs, err = run_file(run, d, lines, maxpasses)
             if err:
-                run.report("validate_file raised %s" % err, {"file": text_of(lines), "mangled": changed}, {"exception"})
+                run.report("validate_file raised %s" % err, {"file": text_of(lines), "mangled": changed}, {"exception"} | mech_tags(abstract(lines), changed))
                 continue
             files.append({"lines": abstract(lines), "canonical": is_can, "obs": obs})
             meta.append({"text": text_of(lines), "mangled": changed, "base": bi})
@@ -357,14 +370,7 @@ def main(run):
         bad.add(t)
         m = meta[t - 1]
         tags = {tag}
-        fl = files[t - 1]["lines"]
-        if any(fl[i]["k"] == "text" and fl[i]["kw"] for i, _ in m["mangled"]):
-            tags.add("help-text-starting-with-keyword")
-        for i, kind in m["mangled"]:
-            if kind in ("tab", "tab+trail") and fl[i]["k"] not in ("text", "blank", "hash"):
-                prev = [x for x in fl[:i] if x["k"] not in ("blank", "hash")]
-                if prev and prev[-1]["k"] in ("text", "help"):
-                    tags.add("tab-indented-line-after-help")
+        tags |= mech_tags(files[t - 1]["lines"], m["mangled"])
         run.report("%s: %s vs %s (mangled lines: %s)" % (tag, str(a)[:300], str(b)[:300], m["mangled"]), {"file": m["text"], "mangled": m["mangled"], "clause": tag, "expected": a, "observed": b, "passes": files[t - 1]["obs"]["ok"]}, tags)
     run.cov["traces_validated_against_impl"] = len(files) - len(bad)
     run.cov["design_level_counterexamples"] = design
